@@ -15,8 +15,11 @@ def run_check(tier, seed, replay=None):
         mc = None
     else:
         mc = tlc_mc("MC_Storage.tla", "MC_Storage_%s.cfg" % tier, "c19_mc", edges_out=hist)
+        hist2 = os.path.join(BUILD, "c19_kt.hist")
+        mc2 = tlc_mc("MC_Storage.tla", "MC_Storage_%s_kt.cfg" % tier, "c19_mc_kt", edges_out=hist2)
+        mc = {"states": mc["states"] + mc2["states"], "transitions": mc["transitions"] + mc2["transitions"], "depth": max(mc["depth"], mc2["depth"]), "edges": mc["edges"] + mc2["edges"]}
         log("model: %s" % mc)
-        info = vh(["drive-storage", "--histories", hist, "--random", "300" if tier == "quick" else "5000", "--seed", str(seed), "--out", trace])
+        info = vh(["drive-storage", "--histories", hist, "--histories", hist2, "--random", "300" if tier == "quick" else "5000", "--seed", str(seed), "--out", trace])
     n, bad, dt = tlc_trace("StorageTrace.tla", "StorageTrace.cfg", trace, "c19_trace")
     log("trace: %d events, %d rejected, %.1fs" % (n, len(bad), dt))
     events = read_trace(trace) if bad else []
@@ -26,7 +29,7 @@ def run_check(tier, seed, replay=None):
         while events[s]["ev"] != "snew":
             s -= 1
         ops = [[x["op"], x["v"]] for x in events[s + 1:idx]]
-        rep.violation("storage:%s:%s:code%d" % (events[s]["ty"], e["op"], code), {"component": "storage", "history": {"ops": ops, "ty": events[s]["ty"]},
+        rep.violation("storage:%s:%s:%s:code%d" % (events[s]["ty"], e["op"], e["v"].get("m"), code), {"component": "storage", "history": {"ops": ops, "ty": events[s]["ty"]},
                       "observed": {"tok": e["tok"], "lookups": e["lookups"], "st": e["st"]}, "expected": "Storage!Apply and Lookup through every token handed out", "spec_ref": "StorageTrace!Call"})
     rc = rep.finish()
     if replay:
@@ -34,6 +37,6 @@ def run_check(tier, seed, replay=None):
     sample = [json.loads(l) for l in open(trace).readlines()[:4]]
     write_evidence("C19", tier, seed, {"states": mc["states"], "transitions": mc["transitions"], "traces_validated_against_impl": info["histories"],
         "samples": sample, "events_validated": n, "model": {"module": "spec/MC_Storage.tla", "config": "MC_Storage_%s.cfg" % tier, "depth": mc["depth"], "edges_replayed": mc["edges"]},
-        "exhaustive": False}, ["TLC 1.8.0", "element types: f64 (NaN) and a String wrapper whose value \"nan\" is unequal to itself; values are compared by label"],
+        "exhaustive": False}, ["TLC 1.8.0", "element types: f64 with +0.0 / -0.0 (equal but distinguishable: a lookup must yield the stored one) and NaN, and a key/tag type whose equality is 'same key and different tag' (non-reflexive, yet stored values can equal the argument)"],
         time.time() - t0, len(rep.new))
     return rc
